@@ -178,8 +178,8 @@ func closedWorldAccounts(w *World, r *Report, rule string) {
 	}
 	sort.Strings(cs)
 	allowedSDK := []string{
-		"sdk/x/bank/keeper.BaseSendKeeper).SendCoins",                // creates the recipient account if it does not exist (guarded by HasAccount in the SDK)
-		"sdk/x/bank/keeper.BaseSendKeeper).InputOutputCoins",         // same
+		"sdk/x/bank/keeper.BaseSendKeeper).SendCoins",                     // creates the recipient account if it does not exist (guarded by HasAccount in the SDK)
+		"sdk/x/bank/keeper.BaseSendKeeper).InputOutputCoins",              // same
 		"sdk/x/auth/keeper.AccountKeeper).GetModuleAccountAndPermissions", // creates a missing module account
 		"sdk/x/auth/keeper.AccountKeeper).SetModuleAccount",
 		"sdk/x/bank/keeper.BaseKeeper).trackDelegation", "sdk/x/bank/keeper.BaseKeeper).trackUndelegation",
